@@ -396,7 +396,10 @@ class MinimaxCondorcet:
             to produce them from ranked votes.
         :param n_seats: Number of candidates to select.
         """
-        max_counterscore = {}
+        # a candidate nobody is ranked above has no defeat at all
+        max_counterscore = {
+            cand: -float('inf') for pair in votes for cand in pair
+        }
         for pair, score in self.pairwin_scoring(votes).items():
             max_counterscore[pair[1]] = max(
                 max_counterscore.get(pair[1], -float('inf')),
